@@ -151,7 +151,7 @@ class Baton:
             return self.rng.choice(same)
         return self.rng.choice(others)
 
-    def yield_point(self, cid, site, is_op=False, weight=1.0, src=None):
+    def yield_point(self, cid, site, is_op=False, weight=1.0, src=None, acc=None):
         if self.cap_hit:
             return
         self.E += 1
@@ -178,6 +178,30 @@ class Baton:
                     for c, o in enumerate(self.op_in_flight) if c != cid and not self.done[c])
                 pr = self.p_op if is_op else ((self.p if weight > 1.0 else self.p / 4) if hot else 0.004)
                 fire = self.rng.random() < pr
+            elif pol == "access":
+                # instruction granularity: an atomicity test BEFORE each load/store of a MUTABLE attribute (one that is
+                # stored outside constructors or whose container is mutated in place), first k executions per client and site: another client's whole request fits between two accesses that sit
+                # on one source line (`a, b = self.x[0], self.x[1]`, `self.n = self.n + 1`)
+                if self.return_to is not None and is_op and self.return_to[0] != cid:
+                    back = self.return_to[0]
+                    self.return_to = None
+                    if not self.done[back]:
+                        self._switch(cid, back, site)
+                        self.sems[cid].acquire()
+                        return
+                elif self.return_to is None and not is_op and acc is not None and \
+                        (self.atom_mod <= 1 or __import__("zlib").crc32(site.encode()) % self.atom_mod == self.atom_res):
+                    # (a seeded subset of the access sites: testing EVERY access would always split a pair of reads
+                    #  at its first member too, and the interesting case is a gap before the second one only)
+                    key = (cid, site)
+                    nh = self.site_hits.get(key, 0) + 1
+                    self.site_hits[key] = nh
+                    if nh <= self.atom_k:
+                        others = self._runnable(exclude=cid)
+                        if others:
+                            to = self._pick_visitor(cid, others)
+                            self.return_to = (cid,)
+                            self._probe("self_attribute_access_tests")
             elif pol == "publish":
                 # atomicity tests placed around stores into shared state: at the line that publishes (before it runs)
                 # and at the line after it, for the first k executions of that line by this client; __init__ frames
@@ -294,7 +318,7 @@ class Baton:
             sched.line_events += 1
             fn = code.co_filename
             sched.yield_point(cid, "%s:%s+%d" % (os.path.basename(fn), code.co_name, offset),
-                              weight=weights.get(fn, 1.0))
+                              weight=weights.get(fn, 1.0), acc=sched.self_access.get((id(code), offset)))
             return None
 
         def on_start(code, offset):
@@ -323,6 +347,40 @@ class Baton:
         mon.register_callback(self.TOOL, ev.PY_START, on_start)
         mon.register_callback(self.TOOL, ev.PY_RETURN, on_exit)
         n = 0
+        self.self_access = {}
+        import dis
+        # Which attributes are MUTABLE shared state? Those stored outside __init__ somewhere in the package, or whose
+        # container is mutated in place (x.append(..), x[k] = v). Fields only ever assigned in constructors cannot race.
+        mutators = {"append", "extend", "insert", "pop", "remove", "update", "setdefault", "add", "clear", "sort",
+                    "reverse", "popitem", "discard"}
+        mutable = set()
+        for code, fn in code_objects:
+            if code.co_name == "__init__":
+                continue
+            ins_list = list(dis.get_instructions(code))
+            line_attrs, line_has_store_subscr = [], False
+            for i_, ins in enumerate(ins_list):
+                if ins.starts_line is not None:
+                    if line_has_store_subscr:
+                        mutable.update(line_attrs)
+                    line_attrs, line_has_store_subscr = [], False
+                if ins.opname == "STORE_ATTR":
+                    mutable.add(ins.argval)
+                elif ins.opname == "LOAD_ATTR":
+                    line_attrs.append(ins.argval)
+                    nxt = ins_list[i_ + 1] if i_ + 1 < len(ins_list) else None
+                    if nxt is not None and nxt.opname == "LOAD_ATTR" and nxt.argval in mutators:
+                        mutable.add(ins.argval)
+                elif ins.opname in ("STORE_SUBSCR", "DELETE_SUBSCR"):
+                    line_has_store_subscr = True
+            if line_has_store_subscr:
+                mutable.update(line_attrs)
+        self.mutable_attrs = sorted(mutable)
+        for code, fn in code_objects:
+            if fn in self.opcode_files and fn in weights and code.co_name != "__init__":
+                for ins in dis.get_instructions(code):
+                    if ins.opname in ("LOAD_ATTR", "STORE_ATTR") and ins.argval in mutable:
+                        self.self_access[(id(code), ins.offset)] = ins.opname + ":" + str(ins.argval)
         for code, fn in code_objects:
             if fn not in weights:
                 continue
